@@ -473,6 +473,21 @@ def generate_and_run(tier, seed, wdir):
                              stack_mb=8)      # the usual main-thread stack, whatever the caller's limit
             ev.append({"e": "xeq", "props": ["C06", "C12"], "tag": "deep-chain-%d" % depth,
                        "a": [rc, b"n2: no work to do" in out], "b": [0, True]})
+        # 8d. -d trace: the performance trace is a JSON array with one complete event per executed
+        #     command (named by its message, on a lane 1..j that no overlapping command shares),
+        #     the phases of the invocation on lane 0, and "main" last
+        steps = [Step("w%d" % i, "sleep 0.%d; echo x > w%d.out" % (1 + i % 3, i), ins=(["w0.out"] if i in (3, 4) else []))
+                 for i in range(6)]
+        sdir, rc, out = scenario(n2, root, "tracefile", steps, 3, 0, ev, args=["-d", "trace"])
+        tj = os.path.join(sdir, "trace.json")
+        try:
+            raw = json.load(open(tj)); valid = isinstance(raw, list)
+        except Exception:
+            raw = []; valid = False
+        tevs = [[e.get("name", ""), int(e.get("tid", -1)), int(e.get("ts", -1)), int(e.get("dur", -1)), e.get("ph", "")]
+                for e in raw if isinstance(e, dict)]
+        ev.append({"e": "xtrace", "valid": valid, "events": tevs, "j": 3,
+                   "tasks": sorted(s.desc for s in steps)})
         # 9. a tty changes nothing about the build (C20 isolation clause)
         for cols in (10, 11, 20, 80):
             desc = "übergroße Beschreibung — ☃☃☃☃☃☃☃☃☃☃ 𝄞𝄞𝄞 long enough to be cut somewhere"
